@@ -8,7 +8,7 @@ A model never shadows a function that resolves to dropshot's own MIR unless `ove
 import re
 import z3
 
-from .core import (Adt, Cell, Closure, Opaque, Panic, PMap, PVec, Ref, SB, SymStr, Tup, Unsupported, dv, is_sym, lit,
+from .core import (Adt, Cell, Closure, Opaque, Panic, PMap, PSet, PVec, Ref, SB, SymStr, Tup, Unsupported, dv, is_sym, lit,
                    zand, znot, zor, zbool, StrSort)
 
 
@@ -55,6 +55,8 @@ class It:
             elif k == 'filter_map':
                 r = ex.call_closure(self.clo, [x])
                 if r.discr == 1: return ex.payload(r)
+            elif k == 'map_py':
+                return self.extra(x)
             elif k == 'skip':
                 if self.pos < self.extra:
                     self.pos += 1; continue
@@ -77,6 +79,9 @@ def as_iter(ex, v, by_value=False):
     if isinstance(v, PVec):
         if by_value and not isinstance(v0, Ref): return It('list', [c.v for c in v.items])
         return It('list', [Ref(c) for c in v.items])
+    if isinstance(v, PSet):
+        if by_value and not isinstance(v0, Ref): return It('list', [k for k, _ in v.items])
+        return It('list', [Ref(Cell(k)) for k, _ in v.items])
     if isinstance(v, PMap):
         if by_value and not isinstance(v0, Ref): return It('list', [Tup([Cell(k), Cell(c.v)]) for k, c in v.items])
         return It('list', [Tup([Cell(Ref(Cell(k))), Cell(Ref(c))]) for k, c in v.items])
@@ -156,7 +161,7 @@ def m_collect(ex, args, callee):
             out.append(ex.payload(x))
     items = it.remaining(ex)
     if 'BTreeSet' in target or 'HashSet' in target:
-        s = PMap()
+        s = PSet()
         for x in items: s.put(key_of(x), x)
         return s
     if 'BTreeMap' in target or 'HashMap' in target or 'IndexMap' in target:
@@ -412,6 +417,16 @@ def m_unwrap_or(ex, args, callee):
     return ex.payload(o) if o.discr == 1 else args[1]
 
 
+def m_unwrap_or_default(ex, args, callee):
+    o = args[0]
+    good = 0 if o.ty == 'Result' else 1
+    if o.discr == good: return ex.payload(o)
+    m = re.match(r'^(?:std::\w+::)?(?:Option|Result)::<(.*)>::unwrap_or_default$', callee, re.S)
+    from .mir import split_top
+    t = split_top(m.group(1))[0] if m else '?'
+    return default_for_type(ex, re.sub(r'^std::\w+::', '', t.strip()))
+
+
 def m_unwrap_or_else(ex, args, callee):
     o = args[0]
     if o.ty == 'Result': return ex.payload(o) if o.discr == 0 else ex.call_closure(args[1], [ex.payload(o)])
@@ -576,6 +591,36 @@ def m_fmt_format(ex, args, callee):
     return r if r is not None else SymStr(z3.FreshConst(StrSort, 'fmt'))
 
 
+def default_for_type(ex, t):
+    t = t.strip()
+    if t == 'bool': return False
+    if t.startswith('Option<'): return ex.none()
+    if t.startswith('Vec<'): return PVec()
+    if re.match(r'^(IndexMap|BTreeMap|Map|HashMap|BTreeSet|Set)<', t): return PMap()
+    if t == 'String': return ''
+    if t.startswith('VariantOrUnknownOrEmpty<'): return ex.mk_enum('VariantOrUnknownOrEmpty', 'Empty')
+    if re.match(r'^[ui](8|16|32|64|size)$', t): return 0
+    base = re.sub(r'<.*', '', t).split('::')[-1]
+    if base in ex.L.structs: return default_struct(ex, base)
+    return Opaque('default', t)
+
+
+def default_struct(ex, name):
+    fields = ex.L.structs[name]
+    return Adt(name, 0, {None: [Cell(default_for_type(ex, ex.L.field_types.get((name, f), '?'))) for f in fields]})
+
+
+def m_default(ex, args, callee):
+    m = re.match(r'^<(.*) as Default>::default$', callee)
+    base = re.sub(r'<.*', '', m.group(1)).split('::')[-1]
+    if base in ex.L.structs and ex.L.structs[base]: return default_struct(ex, base)
+    return default_for_type(ex, m.group(1).split('::')[-1])
+
+
+def m_clone_from(ex, args, callee):
+    args[0].cell.v = dv(args[1]); return Tup([])
+
+
 def m_panic(ex, args, callee):
     raise Panic('panic: ' + (str(args[0])[:80] if args else ''))
 
@@ -616,8 +661,12 @@ def m_int_from(ex, args, callee):
     m = re.match(r'^<(\w+) as (?:From|TryFrom)<(\w+)>>::(from|try_from)$', callee)
     dst, src, how = m.group(1), m.group(2), m.group(3)
     v = args[0]
-    if how == 'from': return ex.int_cast(v, src, dst)
     from .core import INT_BITS
+    if z3.is_expr(v) and z3.is_int(v):
+        lo, hi = (-(1 << (INT_BITS[dst] - 1)), (1 << (INT_BITS[dst] - 1)) - 1) if dst.startswith('i') else (0, (1 << INT_BITS[dst]) - 1)
+        if how == 'from': return v
+        return ex.ok(v) if ex.truth(z3.And(v >= lo, v <= hi)) else ex.err(Opaque('TryFromIntError'))
+    if how == 'from': return ex.int_cast(v, src, dst)
     db, sb = INT_BITS[dst], INT_BITS[src]
     wide = ex.int_cast(v, src, 'i128')
     lo, hi = (-(1 << (db - 1)), (1 << (db - 1)) - 1) if dst.startswith('i') else (0, (1 << db) - 1)
@@ -651,7 +700,8 @@ BASE_MODELS = [
     (r' as Iterator>::collect::', m_collect),
     (r'^std::iter::once::', lambda ex, a, c: It('list', [a[0]])), (r'^std::iter::empty::', lambda ex, a, c: It('list', [])),
     (r'Option::<.*>::iter$', lambda ex, a, c: as_iter(ex, a[0]) if dv(a[0]).discr == 0 else It('list', [Ref(dv(a[0]).fields[1][0])])),
-    (r'BTreeMap::<.*>::new$|BTreeSet::<.*>::new$|HashSet::<.*>::new$|HashMap::<.*>::new$', lambda ex, a, c: PMap()),
+    (r'BTreeSet::<.*>::new$|HashSet::<.*>::new$', lambda ex, a, c: PSet()),
+    (r'BTreeMap::<.*>::new$|HashMap::<.*>::new$', lambda ex, a, c: PMap()),
     (r'BTreeMap::<.*>::get::|HashMap::<.*>::get::', m_map_get), (r'BTreeMap::<.*>::insert$|HashMap::<.*>::insert$', m_map_insert),
     (r'BTreeMap::<.*>::contains_key::', m_map_contains),
     (r'BTreeMap::<.*>::entry$', m_entry), (r'Entry::<.*>::or_insert_with::', m_or_insert_with),
@@ -680,7 +730,7 @@ BASE_MODELS = [
     (r'Option::<.*>::map::', m_opt_map), (r'(Option|Result)::<.*>::map_or::', m_map_or), (r'(Option|Result)::<.*>::map_or_else::', m_map_or_else),
     (r'(Option|Result)::<.*>::transpose$', m_transpose),
     (r'Option::<.*>::filter::', m_opt_filter), (r'Option::<.*>::or$', m_opt_or), (r'Option::<.*>::and_then::', m_opt_and_then), (r'Option::<.*>::or_else::', m_opt_or_else),
-    (r'(Option|Result)::<.*>::unwrap_or$', m_unwrap_or), (r'(Option|Result)::<.*>::unwrap_or_else::', m_unwrap_or_else),
+    (r'(Option|Result)::<.*>::unwrap_or$', m_unwrap_or), (r'(Option|Result)::<.*>::unwrap_or_default$', m_unwrap_or_default), (r'(Option|Result)::<.*>::unwrap_or_else::', m_unwrap_or_else),
     (r'(Option|Result)::<.*>::(unwrap|expect)$', m_expect),
     (r'Option::<.*>::take$', m_opt_take), (r'Option::<.*>::replace$', m_opt_replace), (r'Option::<.*>::insert$', lambda ex, a, c: (m_opt_replace(ex, a, c), Ref(a[0].cell.v.fields[1][0]))[1]), (r'(Option|Result)::<.*>::as_ref$|Option::<.*>::as_mut$', m_as_ref),
     (r'Option::<.*>::as_deref_mut$|Option::<.*>::as_deref$', m_as_deref),
@@ -689,7 +739,7 @@ BASE_MODELS = [
     (r'Result::<.*>::ok$', m_res_ok), (r'Result::<.*>::is_ok$', lambda ex, a, c: dv(a[0]).discr == 0),
     (r'Result::<.*>::is_err$', lambda ex, a, c: dv(a[0]).discr == 1),
     (r' as Try>::branch$', m_try_branch), (r' as FromResidual<.*>>::from_residual$', m_from_residual),
-    (r'str>::starts_with::<char>$', need_str(lambda s, c: s.startswith(c))), (r'str>::ends_with::<char>$', need_str(lambda s, c: s.endswith(c))),
+    (r'str>::starts_with::<(char|&str)>$', need_str(lambda s, c: s.startswith(c))), (r'str>::ends_with::<char>$', need_str(lambda s, c: s.endswith(c))),
     (r'str>::find::<char>$', m_find_char), (r'str>::to_uppercase$', need_str(lambda s: s.upper())),
     (r'str>::to_lowercase$', need_str(lambda s: s.lower())),
     (r'str as Index<', m_str_index),
@@ -700,6 +750,8 @@ BASE_MODELS = [
     (r'^core::fmt::rt::', lambda ex, a, c: Opaque('fmt')),
     (r'^std::fmt::format$|^alloc::fmt::format$', m_fmt_format),
     (r'^must_use::', ident),
+    (r' as Clone>::clone_from$', m_clone_from),
+    (r' as Iterator>::cloned::| as Iterator>::copied::| as Iterator>::cloned$| as Iterator>::copied$', lambda ex, a, c: It('map_py', as_iter(ex, a[0]), None, lambda x: dv(x))),
     (r'^std::any::type_name::|^type_name::', lambda ex, a, c: 'type-name'),
     (r'^<[ui](8|16|32|64|128|size) as (From|TryFrom)<[ui](8|16|32|64|128|size)>>::(from|try_from)$', m_int_from),
     (r'NonZero::<.*>::get$', ident), (r'NonZero::<.*>::new_unchecked$', ident),
@@ -713,6 +765,7 @@ BASE_MODELS = [
     (r'Pin::<.*>::new_unchecked$|Pin::<.*>::new$', lambda ex, a, c: Adt('Pin', 0, {None: [Cell(a[0])]})),
     (r'Pin::<.*>::get_unchecked_mut$|Pin::<.*>::get_mut$|Pin::<.*>::as_mut$|Pin::<.*>::into_inner$', lambda ex, a, c: a[0].fields[None][0].v if isinstance(a[0], Adt) else dv(a[0]).fields[None][0].v),
     (r' as std::future::IntoFuture>::into_future$|as IntoFuture>::into_future$', lambda ex, a, c: a[0]),
+    (r'^<.* as Default>::default$', m_default),
 ]
 
 
